@@ -269,3 +269,78 @@ func Harness_C09_J_encode() {
 	vAssert(derr == nil && len(rest) == 0 && len(w.L) == n && w.T == v.T, "round trip")
 	vReach("encoded")
 }
+
+// A vector of variants: consecutive elements may take the same arm, and each must keep its own value.
+type c09Var struct {
+	Sel Enum    `tls:"maxval:1"`
+	A   *uint16 `tls:"selector:Sel,val:0"`
+	B   *uint8  `tls:"selector:Sel,val:1"`
+}
+type c09L struct {
+	Vals []c09Var `tls:"minlen:0,maxlen:40"`
+}
+
+//verif:opt maxpaths=6000 reach=accepted,rejected
+func Harness_C09_L_decode() { c09DecodeLaw[c09L](3 + vChoice("len", 7+2*vTier())) } // from 3 bytes: parsing the field tags allocates a 2-element slice whatever the input
+
+//verif:opt maxpaths=3000 reach=encoded
+func Harness_C09_L_encode() {
+	n := vChoice("n", 4)
+	v := c09L{Vals: []c09Var{}}
+	wantLen := 1
+	for i := 0; i < n; i++ {
+		if vChoice("arm", 2) == 0 {
+			a := vU16("a")
+			v.Vals = append(v.Vals, c09Var{Sel: 0, A: &a})
+			wantLen += 3
+		} else {
+			b := vU8("b")
+			v.Vals = append(v.Vals, c09Var{Sel: 1, B: &b})
+			wantLen += 2
+		}
+	}
+	out := c09EncodeLaw(v)
+	vAssert(out != nil && len(out) == wantLen && int(out[0]) == wantLen-1, "RFC length: selector byte plus the chosen arm per element")
+	// the decoded elements are independent objects holding their own values
+	var w c09L
+	_, err := Unmarshal(out, &w)
+	vAssert(err == nil && len(w.Vals) == n, "decodes")
+	for i := 0; i < n && i < len(w.Vals); i++ {
+		if v.Vals[i].Sel == 0 {
+			vAssert(w.Vals[i].A != nil && w.Vals[i].B == nil && *w.Vals[i].A == *v.Vals[i].A, "element keeps its own value (same arm as a neighbour or not)")
+		} else {
+			vAssert(w.Vals[i].B != nil && w.Vals[i].A == nil && *w.Vals[i].B == *v.Vals[i].B, "element keeps its own value (same arm as a neighbour or not)")
+		}
+	}
+}
+
+// Shapes at the edge of what the tags can express.
+
+// An 8-byte length prefix: lengths of 2^63 and more do not fit an int.
+type c09K struct {
+	V []byte `tls:"minlen:0,maxlen:18446744073709551615"`
+}
+
+//verif:opt maxpaths=4000 reach=accepted,rejected
+func Harness_C09_K_decode() { c09DecodeLaw[c09K](8 + vChoice("len", 3)) }
+
+// Vectors and arrays of a named byte type.
+type c09Byte uint8
+type c09M struct {
+	V []c09Byte `tls:"minlen:0,maxlen:255"`
+	A [2]c09Byte
+}
+
+//verif:opt maxpaths=4000 reach=accepted,rejected
+func Harness_C09_M_decode() { c09DecodeLaw[c09M](3 + vChoice("len", 4)) }
+
+//verif:opt maxpaths=3000 reach=encoded
+func Harness_C09_M_encode() {
+	n := vChoice("n", 3)
+	v := c09M{V: []c09Byte{}, A: [2]c09Byte{c09Byte(vU8("a0")), c09Byte(vU8("a1"))}}
+	for i := 0; i < n; i++ {
+		v.V = append(v.V, c09Byte(vU8("v")))
+	}
+	out := c09EncodeLaw(v)
+	vAssert(out != nil && len(out) == 1+n+2 && int(out[0]) == n && out[1+n] == byte(v.A[0]), "RFC layout of byte vectors and arrays, whatever the element type is called")
+}
